@@ -111,7 +111,7 @@ type lvar struct {
 
 var fieldsInt = []string{"x", "y"}
 var fieldsStr = []string{"s", "a"}
-var strLits = []string{`"a"`, `"b"`, `"pan"`, `"wye"`, `""`, `"x"`, `"sum"`, `"k1"`}
+var strLits = []string{`"a"`, `"b"`, `"pan"`, `"wye"`, `""`, `"x"`, `"sum"`, `"k1"`, `"y"`, `"s"`}
 var localNames = []string{"a", "b", "c", "d", "n", "m", "t"}
 var oosInt = []string{"@c", "@n"}
 var oosMap = []string{"@m", "@sum", "@cnt"}
@@ -512,7 +512,7 @@ func (g *g14) lhsOf(k kind) string {
 		}
 	case kStr:
 		if !g.inBE {
-			return g.pick("$s", "$t", "$a", "@last", "$[[1]]", "$[[2]]")
+			return g.pick("$s", "$t", "$a", "@last", "$[[1]]", "$[[2]]", "$[[1]]", "$[[3]]")
 		}
 		return "@last"
 	case kMap:
@@ -733,6 +733,34 @@ func (g *g14) stmt(d int) string {
 		g.define(name, kAny)
 		return name + " = func(u) { return " + g.withLocals([]lvar{{"u", kInt}}, func() string { return g.expr(2, kInt) }) + " };\n" +
 			g.lhsOf(kInt) + " = " + name + "(" + g.expr(1, kInt) + ");"
+	case c < 39: // purity: a function applied to a variable must leave the variable as it was
+		v := g.pick("@arr", "@m", "$arr", "$m")
+		isArr := strings.HasSuffix(v, "arr")
+		if ls := g.localsOf(kArr); len(ls) > 0 && g.ch(1, 2) {
+			v, isArr = g.r.pick(ls), true
+		} else if ls := g.localsOf(kMap); len(ls) > 0 && g.ch(1, 2) {
+			v, isArr = g.r.pick(ls), false
+		}
+		if g.inBE && strings.HasPrefix(v, "$") {
+			v = "@" + v[1:]
+		}
+		pre := ""
+		if g.ch(1, 2) {
+			if isArr {
+				pre = v + " = [3, 1, 2, " + g.intLit() + "];\n"
+			} else {
+				pre = v + " = {\"b\": 2, \"a\": 1, \"c\": " + g.intLit() + "};\n"
+			}
+		}
+		var call string
+		if isArr {
+			call = g.pick("sort("+v+", func(p, q) { return q <=> p })", "sort("+v+", func(p, q) { return p <=> q })", "apply("+v+", func(e) { return e . \"x\" })",
+				"select("+v+", func(e) { return e != 1 })", "append("+v+", 9)", "reduce("+v+", func(acc, e) { return acc . e })", "fold("+v+", func(acc, e) { return acc . e }, \"\")", v+"[1:2]")
+		} else {
+			call = g.pick("apply("+v+", func(k, v) { return {toupper(k): v} })", "select("+v+", func(k, v) { return k != \"a\" })", "mapsum("+v+", {\"z\": 0})",
+				"mapdiff("+v+", {\"a\": 0})", "get_keys("+v+")", "get_values("+v+")")
+		}
+		return pre + "print " + call + ";\nprint " + v + ";"
 	default: // aggregate idioms
 		if g.inBE {
 			return "@sum[" + g.pick(`"a"`, `"b"`) + "][" + g.pick(`"p"`, `"q"`) + "] += 1;"
@@ -914,6 +942,12 @@ func genInput14(r *rng) string {
 		}
 		if r.chance(1, 8) {
 			fs = append(fs, `"arr": [5, 6, 7]`)
+		}
+		if r.chance(1, 7) {
+			// a wide record: from 12 fields on the record keeps a key index, which every mutator must maintain
+			for k := 1; k <= 12; k++ {
+				fs = append(fs, fmt.Sprintf(`"f%d": %d`, k, k))
+			}
 		}
 		lines = append(lines, "{"+strings.Join(fs, ", ")+"}")
 	}
